@@ -532,7 +532,7 @@ fn process_tags(
                 #[cfg(feature = "verif")]
                 crate::verif::tag_result(
                     &format!("{:?}", idx),
-                    t.get_element().is_some(),
+                    t.get_element_mut().is_some(),
                     false,
                     context.in_specs,
                     "deferred",
